@@ -112,12 +112,16 @@ def run_check(mdir, pid, tier):
     rc, out = sh(["git", "-C", REPO, "apply", patch])
     if rc != 0:
         return None, "patch does not apply to /repo: " + out
+    evfile = os.path.join(ROOT, "evidence", pid + ".json")
+    saved = open(evfile).read() if os.path.exists(evfile) else None
     try:
         t0 = time.time()
         rc, out = sh([os.path.join(ROOT, "check"), "run", pid, "--tier", tier], cwd=ROOT, timeout=7200)
         wall = time.time() - t0
     finally:
         sh(["git", "-C", REPO, "apply", "-R", patch])
+        if saved is not None:  # the evidence of a run against a changed tree is not evidence for /repo
+            open(evfile, "w").write(saved)
         after = sh(["git", "-C", REPO, "status", "--porcelain"])[1]
         if after != before:
             print("WARNING: /repo status changed!\n" + after)
